@@ -19,7 +19,8 @@ func init() {
 			"R2 Bind.Body consults custom binders first, dispatches every body MIME type a bundled binder exists for and ends in ErrUnprocessableEntity; R3 every Bind.* method passes the binder's error through returnErr, " +
 			"which answers 400 exactly when automatic handling is on; R4 the client-side struct encoder handles every kind of the property's domain (ints, uints, floats, bool, string, slice/array); " +
 			"R5 in the visitor-based binders no further assignment happens after the first formatBindData error and the error is returned before parse. " +
-			"Not decided (honest not-applicable): equality of decoded and encoded values, escaping, bracket notation, comma splitting — cross-component value semantics through reflection and an external decoder; panic-freedom of the decoder.",
+			"R6 assignBindData hands the decoder the value itself or comma-separated elements of it — nothing trimmed, folded or replaced. " +
+			"Not decided (honest not-applicable): equality of decoded and encoded values, escaping, bracket notation, when comma splitting applies — cross-component value semantics through reflection and an external decoder; panic-freedom of the decoder.",
 		Assume: []string{"gofiber/schema decoder and reflection are opaque"},
 		Run:    runC11,
 	})
@@ -360,5 +361,102 @@ func runC11(r *Run) {
 			r.check(okRet, "binder:"+b+":error-before-parse", r.fpos(f), "a visitor error is returned before parse", "binder."+b+" calls parse although formatting the data failed")
 		}
 		r.atLeast("visitor closures", n, 4)
+	})
+
+	r.rule("R6", "values reach the decoder verbatim: what assignBindData appends is the value itself or an element of strings.Split(value, \",\") — no trimming, folding or replacing on the way (E3 backwards)", func() {
+		f := r.Fn("binder", "assignBindData")
+		var valueP *ssa.Parameter
+		for _, p := range f.Params {
+			if p.Name() == "value" {
+				valueP = p
+			}
+		}
+		r.need(valueP != nil, "assignBindData(…, value string, …)")
+		identity := map[string]bool{"strings.Clone": true, "github.com/gofiber/utils/v2.CopyString": true, "github.com/gofiber/utils/v2.UnsafeString": true}
+		var why string
+		var verbatim func(v ssa.Value, seen map[ssa.Value]bool) bool
+		verbatim = func(v ssa.Value, seen map[ssa.Value]bool) bool {
+			if seen[v] {
+				return true
+			}
+			seen[v] = true
+			switch x := v.(type) {
+			case *ssa.Parameter:
+				if x == valueP {
+					return true
+				}
+				why = "parameter " + x.Name()
+				return false
+			case *ssa.Phi:
+				for _, e := range x.Edges {
+					if !verbatim(e, seen) {
+						return false
+					}
+				}
+				return true
+			case *ssa.UnOp:
+				if x.Op == token.MUL {
+					if ia, ok := x.X.(*ssa.IndexAddr); ok {
+						return verbatim(ia.X, seen)
+					}
+					if al := rootAlloc(x.X); al != nil {
+						for _, st := range storesInto(al) {
+							if !verbatim(st.Val, seen) {
+								return false
+							}
+						}
+						return true
+					}
+				}
+			case *ssa.Index:
+				return verbatim(x.X, seen)
+			case *ssa.Extract:
+				// range over a slice yields (index, element) through Next on the iterator only for maps/strings; slices use IndexAddr
+				return verbatim(x.Tuple, seen)
+			case *ssa.ChangeType:
+				return verbatim(x.X, seen)
+			case *ssa.Call:
+				n := calleeName(&x.Call)
+				if n == "strings.Split" || n == "strings.SplitN" {
+					if sep, ok := constString(asConst(x.Call.Args[1])); ok && sep == "," {
+						return verbatim(x.Call.Args[0], seen)
+					}
+					why = "split on something other than a comma"
+					return false
+				}
+				if identity[n] {
+					return verbatim(x.Call.Args[0], seen)
+				}
+				why = "passes through " + short(n)
+				return false
+			}
+			why = fmt.Sprintf("passes through %T", v)
+			return false
+		}
+		n := 0
+		for _, c := range callsMatching(f, true, nameIs("builtin:append")) {
+			if len(c.Common.Args) != 2 {
+				continue
+			}
+			var vals []ssa.Value
+			if sl, ok := c.Common.Args[1].(*ssa.Slice); ok {
+				if al, ok := sl.X.(*ssa.Alloc); ok {
+					for _, st := range storesInto(al) {
+						vals = append(vals, st.Val)
+					}
+				}
+			}
+			if len(vals) == 0 {
+				vals = append(vals, c.Common.Args[1])
+			}
+			for _, v := range vals {
+				n++
+				why = ""
+				okV := verbatim(v, map[ssa.Value]bool{})
+				r.check(okV, fmt.Sprintf("assignBindData:append#%d:verbatim", n), r.pos(c.Instr), "the appended string is the value or a comma-separated element of it",
+					"a bound value is transformed on its way to the decoder ("+why+"): what Bind returns differs from what was sent, e.g. a slice element with a leading or trailing blank, or different letter case")
+			}
+		}
+		r.atLeast("appends in assignBindData", n, 2)
 	})
 }
